@@ -300,10 +300,12 @@ def replay (cfg : Cfg) (c : Case) : KRes := Id.run do
     return { ok := false, line := (c.ops.back?.map (·.line)).getD 0, want := "<no panic>", got := s!"panic {c.panic.getD ""}" }
   return { ok := true, closedWin := closedWin, hsRetx := hsRetx }
 
+/-- Every non-empty combination of the repair flags (the implementation may carry any subset of
+    the repairs; DESIGN 1.3). -/
 def fixedVariants (cfg : Cfg) : List Cfg :=
-  [ { cfg with fixReack := true }, { cfg with fixWinUpdate := true }, { cfg with fixReapOrphan := true },
-    { cfg with fixHsReset := true },
-    { cfg with fixReack := true, fixWinUpdate := true, fixReapOrphan := true, fixHsReset := true } ]
+  (List.range 16).tail.map fun m =>
+    { cfg with fixReapOrphan := m % 2 == 1, fixReack := (m / 2) % 2 == 1,
+               fixWinUpdate := (m / 4) % 2 == 1, fixHsReset := (m / 8) % 2 == 1 }
 
 /-! ### O: oracles on the implementation's observations -/
 
